@@ -181,10 +181,10 @@ Definition cancel_rule (c : case) : bool :=
                    else has_reducer c && ex_before is_ce (fun e => is_rw e || is_ret e) t in
   if cancelled then is_err (c_out c) || (is_xpanic (c_out c) && existsb is_panic_ev t) else true.
 
-(* a panic is re-raised in the caller (no cancel / ctx around, nothing handed to the caller before) *)
+(* a panic (raised before the call returned, no cancel / ctx in the script) is re-raised in the caller *)
 Definition panic_rule (c : case) : bool :=
   let t := c_trace c in
-  if negb (has_cancel_act c) && Nat.eqb (c_ctx c) 0 && ex_before is_panic_ev (fun e => is_rw e || is_ret e) t
+  if negb (has_cancel_act c) && Nat.eqb (c_ctx c) 0 && ex_before is_panic_ev is_ret t
   then is_xpanic (c_out c) else true.
 
 (* a done context makes the call return DeadlineExceeded *)
@@ -194,15 +194,25 @@ Definition ctx_rule (c : case) : bool :=
      (Nat.eqb (c_ctx c) 1 || ex_before is_cx is_ret t)
   then xout_eqb (c_out c) (XErr EDeadline) else true.
 
-Definition spec_ok (c : case) : bool :=
+(* `skip` leaves out the clause(s) a known-finding class is about (used by the harness' classify to decide that the
+   class' anomaly is the ONLY failure): 0 nothing; 1 outcome_ok and cancel_rule (send_on_closed); 2 panic_rule
+   (reducer_write_then_panic); 3 ctx_rule (ctx_select_race) *)
+Definition spec_ok_gen (skip : nat) (c : case) : bool :=
   let t := c_trace c in
   nodupb Nat.eqb (ms_list t) && forallb (fun i => Nat.ltb i (nitems c)) (ms_list t) &&   (* at most once *)
   conc_ok (eff_workers c) 0 t &&                                                        (* worker bound *)
   recv_ok [] t &&
   (if sclean c && negb (has_cancel_act c) && negb (existsb (existsb (fun a => match a with AWaitRet => true | _ => false end)) (c_items c))
    then clean_ok c else true) &&
-  outcome_ok c && cancel_rule c && panic_rule c && ctx_rule c &&
+  (Nat.eqb skip 1 || (outcome_ok c && cancel_rule c)) && (Nat.eqb skip 2 || panic_rule c) &&
+  (Nat.eqb skip 3 || ctx_rule c) &&
+  match c_out c with XHang | XOther => false | _ => true end &&                         (* the call returns *)
   Nat.eqb (c_leaked c) 0.                                                               (* no goroutine left *)
+
+Definition spec_ok (c : case) : bool := spec_ok_gen 0 c.
+Definition spec_wo_outcome (c : case) : bool := spec_ok_gen 1 c.
+Definition spec_wo_panic (c : case) : bool := spec_ok_gen 2 c.
+Definition spec_wo_ctx (c : case) : bool := spec_ok_gen 3 c.
 
 (* ------------------------------------------------------------------ model_ok *)
 Definition cfg_of (c : case) : cfg :=
@@ -230,8 +240,14 @@ Definition rs_committed (o : oracle) (s : state) : bool :=
 Definition nsent (o : oracle) (s : state) : nat := List.length (recvd s) + List.length (filter (in_rs o) (coll s)).
 Fixpoint index_of (v : val) (l : list val) (i : nat) : nat :=
   match l with [] => i | a :: t => if val_eqb v a then i else index_of v t (S i) end.
+(* the CAS winner is the re-raised panic; if nothing was re-raised, the first CAS comes after the caller's last look
+   at the panic channel (select / re-check in the output arm) *)
 Definition cas_rule (o : oracle) (s : state) (p : pval) : bool :=
-  if wrote s then true else match o_pwin o with Some p' => pval_eqb p p' | None => true end.
+  if wrote s then true
+  else match o_pwin o with
+       | Some p' => pval_eqb p p'
+       | None => match c s with CSelect | COut _ => false | _ => true end
+       end.
 Definition once_rule (o : oracle) (s : state) (e : err) : bool :=
   match conce s with
   | ONone => match o_cwin o with Some e' => err_eqb e e' | None => true end
@@ -294,6 +310,7 @@ Definition allowed (o : oracle) (s : state) (l : label) : bool :=
   | LXAcq => more_to_map o s || (negb (ctxd s || fin s) && (nil_rest s || someone_drains s))
   | LC =>
       match c s with
+      | COut _ => if is_xpanic (o_out o) then wrote s else negb (wrote s)
       | CCancel CcEnter => once_rule o s EDeadline
       | CCancel CcFin => rs_committed o s
       | CDefer _ => match o_out o with XTwice => match r s with RSend _ _ => true | _ => false end | _ => true end
@@ -303,15 +320,21 @@ Definition allowed (o : oracle) (s : state) (l : label) : bool :=
   | LCPanic => is_xpanic (o_out o)
   | LCOut =>
       match o_out o with
-      | XErr EDeadline | XPanic _ => false
-      | _ => match step_cout s with
-             | Some s' => match c s' with CDefer m => first_match (o_out o) m | _ => false end
+      | XErr EDeadline => false
+      | XPanic _ => negb (wrote s)        (* the value / close is swallowed; the re-check then waits for the CAS *)
+      | _ => negb (wrote s) &&
+             match step_cout s with
+             | Some s' => match step_c s' with
+                          | Some s'' => match c s'' with CDefer m => first_match (o_out o) m | _ => false end
+                          | None => false
+                          end
              | None => false
              end
       end
   end.
 
 Definition candidates (s : state) : list label :=
+  match c s with COut _ => [LC] | _ => [] end ++      (* the re-check follows the receive at once *)
   map LW (seq 0 (List.length (ws s))) ++ [LR; LG; LGSendX; LGSendK; LX; LXAcq; LXStop; LC; LCCtx; LCPanic; LCOut].
 
 Fixpoint pick (cf : cfg) (o : oracle) (s : state) (ls : list label) : option state :=
